@@ -1500,6 +1500,12 @@ impl<T: Transport + 'static> SyncEngine<T> {
 
             // Check if file exists in destination
             if let Some(dest_file) = dest_map.get(&rel_path) {
+                // A directory where the source has a file is a difference, not a read error
+                if dest_file.is_dir {
+                    files_mismatched.push(rel_path.clone());
+                    tracing::warn!("✗ Mismatch (directory in destination): {}", rel_path.display());
+                    continue;
+                }
                 // File exists in both - compare checksums
                 match self.compare_checksums(&source_file.path, &dest_file.path, &verifier) {
                     Ok(true) => {
@@ -1543,9 +1549,9 @@ impl<T: Transport + 'static> SyncEngine<T> {
                 .unwrap_or(&dest_file.path)
                 .to_path_buf();
 
-            // Build corresponding source path
+            // Build corresponding source path (a source DIRECTORY of that name is no counterpart)
             let source_path = source.join(&rel_path);
-            if !source_path.exists() {
+            if !source_path.exists() || source_path.is_dir() {
                 files_only_in_dest.push(rel_path.clone());
                 tracing::info!("← Only in destination: {}", rel_path.display());
             }
